@@ -515,6 +515,9 @@ func init() {
 	intrinsics["strconv.ParseFloat"] = func(c *callCtx, a []Value) (Value, callStatus) {
 		s := strOf(a[0])
 		errNil := Iface{}
+		if f, ok := c.e.floatTextSource(s); ok {
+			return Tuple{f, errNil}, callDone
+		}
 		if s.Concrete() {
 			f, err := strconv.ParseFloat(s.s, int(termArg(a[1]).SInt()))
 			if err != nil {
@@ -718,11 +721,11 @@ func (e *Engine) opaqueFloatText(f *Term) Str {
 	k := len(e.pwTerms)
 	e.pwTerms = append(e.pwTerms, []*Term{f})
 	// encode as marker bytes: 0x01 'F' k
-	return Str{sym: []*Term{BV(8, 1), BV(8, 'F'), BV(8, uint64(k)), e.fresh("fmtfloat", 8)}}
+	return Str{sym: []*Term{BV(8, 1), BV(8, 'F'), BV(8, uint64(k)), BV(8, '#')}}
 }
 
 func (e *Engine) floatTextSource(s Str) (*Term, bool) {
-	if s.Len() == 4 && s.At(0).IsConst() && s.At(0).V == 1 && s.At(1).IsConst() && s.At(1).V == 'F' && s.At(2).IsConst() {
+	if s.Len() == 4 && s.At(0).IsConst() && s.At(0).V == 1 && s.At(1).IsConst() && s.At(1).V == 'F' && s.At(2).IsConst() && s.At(3).IsConst() && s.At(3).V == '#' {
 		k := int(s.At(2).V)
 		if k < len(e.pwTerms) {
 			return e.pwTerms[k][0], true
@@ -849,4 +852,112 @@ func init() {
 			return UF("math_"+n, 64, x, y), callDone
 		}
 	}
+}
+
+// ---------------------------------------------------------------------------
+// encoding/json.Marshal: contract model for flat structs of strings, integers
+// and float64 (what decode mode marshals). Field names come from the json
+// tags. Strings are emitted between quotes WITHOUT escaping (the JSON escaping
+// rules are outside the claim); a NaN or infinite float makes Marshal fail, as
+// documented by encoding/json.
+func init() {
+	intrinsics["encoding/json.Marshal"] = func(c *callCtx, a []Value) (Value, callStatus) {
+		e := c.e
+		iv := a[0].(Iface)
+		if iv.t == nil {
+			return Tuple{e.newByteSlice(Str{s: "null"}.Terms()), Iface{}}, callDone
+		}
+		t := iv.t
+		v := iv.v
+		if pt, ok := t.Underlying().(*types.Pointer); ok {
+			p := v.(Ptr)
+			if p.obj == nil {
+				return Tuple{e.newByteSlice(Str{s: "null"}.Terms()), Iface{}}, callDone
+			}
+			t = pt.Elem()
+			v = e.loadAt(p.obj, p.off, t)
+		}
+		st, ok := t.Underlying().(*types.Struct)
+		if !ok {
+			panic(pathEnd{kind: endUnsupported, msg: "json.Marshal model: not a struct: " + t.String()})
+		}
+		agg := v.(Agg)
+		l := layoutOf(t)
+		var out []*Term
+		putS(&out, "{")
+		for i := 0; i < st.NumFields(); i++ {
+			if i > 0 {
+				putS(&out, ",")
+			}
+			name := st.Field(i).Name()
+			if tag := reflectTag(st.Tag(i), "json"); tag != "" {
+				name = strings.Split(tag, ",")[0]
+			}
+			putS(&out, "\""+name+"\":")
+			ft := st.Field(i).Type()
+			fv := agg[l.offsets[i]]
+			switch {
+			case isString(ft):
+				putS(&out, "\"")
+				out = append(out, fv.(Str).Terms()...)
+				putS(&out, "\"")
+			case isFloat(ft):
+				f := fv.(*Term)
+				bad := Or(FPred(OpFIsNaN, 64, f), FPred(OpFIsInf, 64, f))
+				if e.branch(bad) {
+					return Tuple{Slice{}, e.mkError("json: unsupported value: NaN or Inf")}, callDone
+				}
+				if f.IsConst() {
+					putS(&out, strconv.FormatFloat(math.Float64frombits(f.V), 'g', -1, 64))
+				} else {
+					out = append(out, e.opaqueFloatText(f).Terms()...)
+				}
+			case isInteger(ft):
+				e.fmtValue(c.g, &out, fv, ft, 'd', false, false, 1)
+			default:
+				panic(pathEnd{kind: endUnsupported, msg: "json.Marshal model: field type " + ft.String()})
+			}
+		}
+		putS(&out, "}")
+		return Tuple{e.newByteSlice(out), Iface{}}, callDone
+	}
+}
+
+func reflectTag(tag, key string) string {
+	// minimal struct tag lookup: key:"value"
+	for tag != "" {
+		i := 0
+		for i < len(tag) && tag[i] == ' ' {
+			i++
+		}
+		tag = tag[i:]
+		if tag == "" {
+			break
+		}
+		i = 0
+		for i < len(tag) && tag[i] > ' ' && tag[i] != ':' && tag[i] != '"' {
+			i++
+		}
+		if i == 0 || i+1 >= len(tag) || tag[i] != ':' || tag[i+1] != '"' {
+			break
+		}
+		name := tag[:i]
+		tag = tag[i+1:]
+		i = 1
+		for i < len(tag) && tag[i] != '"' {
+			if tag[i] == '\\' {
+				i++
+			}
+			i++
+		}
+		if i >= len(tag) {
+			break
+		}
+		val := tag[1:i]
+		tag = tag[i+1:]
+		if name == key {
+			return val
+		}
+	}
+	return ""
 }
